@@ -144,7 +144,9 @@ double RandomTools::incompleteGamma (double x, double alpha, double ln_gamma_alp
 {
   size_t i;
   double p = alpha, g = ln_gamma_alpha;
-  double accurate = 1e-8, overflow = 1e30;
+  // Truncation threshold of the series and of the continued fraction. With 1e-8 the two expansions disagree by up to
+  // 8e-9 where they meet (x = max(1, alpha)), which makes the cumulative function decrease there.
+  double accurate = 1e-14, overflow = 1e30;
   double factor, gin = 0, rn = 0, a = 0, b = 0, an = 0, dif = 0, term = 0;
   vector<double> pn(6);
 
